@@ -882,6 +882,8 @@ def getattr_(it, obj, name):
     if isinstance(obj, Instance):
         if name in obj.attrs:
             return obj.attrs[name]
+        if name == '__class__':
+            return obj.cls
         m = find_method(obj.cls, name)
         if m is not None:
             if getattr(m, 'is_static', False):
@@ -894,6 +896,8 @@ def getattr_(it, obj, name):
             return v
         it.raise_('AttributeError', name)
     if isinstance(obj, ClassV):
+        if name == '__name__':
+            return obj.name
         m = find_method(obj, name)
         if m is not None:
             return m
@@ -922,6 +926,10 @@ def getattr_(it, obj, name):
             return obj.cause
         if obj.cls is None:
             # attribute of an arbitrary exception object (e.g. e.errors)
+            if name == 'errors':
+                # list of error details that is only logged: its contents do not matter (logging is a no-op, DESIGN 2.4)
+                obj.attrs[name] = PyList([])
+                return obj.attrs[name]
             v = Opaque('excattr', '%s.%s' % (obj.term, name))
             obj.attrs[name] = v
             return v
@@ -2203,6 +2211,8 @@ def _b_list(it, src=None):
         return PyList()
     if isinstance(src, GenExp):
         return consume_comp(it, src, 'list')
+    if isinstance(src, Opaque) and isinstance(src.attrs.get('__iter__'), Stream):
+        src = src.attrs['__iter__']
     if isinstance(src, Stream):
         it.emit(Ev('Drain', src=src, how='list'))
         src.drained = True
